@@ -114,6 +114,23 @@ def check_tx(case):
             raise Violation('tx/deser-ids', 'deserialised tx reports different identifiers / equality')
         seen_hash[name] = H.dsha(full)
         evals += 6
+    # encodings the parser accepts although no encoder produces them (over-long CompactSize counts and lengths; the BIP144
+    # marker in front of all-empty witness stacks): whatever object comes out, its identifiers are those of ITS serialisation
+    m_last = dict(base, wit=variants[-1][1])
+    for tag, enc in _noncanonical(m_last):
+        r = libx.call('tx/deserialize-noncanonical', CTransaction.deserialize, enc, allowed=(Exception,))
+        if r[0] != 'ok':
+            continue                       # refusing such an encoding is fine
+        o = r[1]
+        ser = libx.call('tx/serialize', o.serialize)[1]
+        st_ = libx.call('tx/serialize-stripped', o.serialize, {'include_witness': False})[1]
+        if o.GetHash() != H.dsha(ser) or o.GetTxid() != H.dsha(st_) or hash(o) != hash(ser) or o.GetTxid() != want_txid:
+            raise Violation('tx/noncanonical-ids-' + tag.split(':')[0], 'transaction parsed from a non-canonical encoding (%s) reports identifiers that are not '
+                            'those of its own serialisation' % tag)
+        o2 = CTransaction.deserialize(ser)
+        if not (o == o2) or hash(o) != hash(o2) or o.GetHash() != o2.GetHash():
+            raise Violation('tx/noncanonical-eq', 'transaction parsed from a non-canonical encoding (%s) differs from its canonical re-parse' % tag)
+        evals += 1
     # identifiers of a mutable transaction follow later edits (read ids, edit, read again)
     cur = dict(base, wit=variants[-1][1], vin=list(base['vin']), vout=list(base['vout']))
     mt = libx.mk_tx(cur, True)
@@ -148,6 +165,41 @@ def check_tx(case):
             'cls': ['tx', 'nin%d' % min(nin, 3)]}
 
 
+def _long_varint(n, width):
+    return {3: b'\xfd' + n.to_bytes(2, 'little'), 5: b'\xfe' + n.to_bytes(4, 'little'), 9: b'\xff' + n.to_bytes(8, 'little')}[width]
+
+
+def _noncanonical(tx):
+    """(tag, bytes): the wire encoding of tx with ONE CompactSize written longer than necessary, or with the witness marker
+    although every stack is empty"""
+    out = []
+    w = W.has_witness(tx)
+    for site in ('nin', 'script0', 'nout', 'witcount0', 'wititem0'):
+        for width in (3, 5, 9):
+            parts = [W.i32(tx['version'])]
+            if w:
+                parts.append(b'\x00\x01')
+            parts.append(_long_varint(len(tx['vin']), width) if site == 'nin' else W.varint(len(tx['vin'])))
+            for k, (h, n, sc, seq) in enumerate(tx['vin']):
+                parts += [h, W.u32(n), (_long_varint(len(sc), width) + sc) if (site == 'script0' and k == 0) else W.varstr(sc), W.u32(seq)]
+            parts.append(_long_varint(len(tx['vout']), width) if site == 'nout' else W.varint(len(tx['vout'])))
+            for v, sc in tx['vout']:
+                parts += [W.i64(v), W.varstr(sc)]
+            if w:
+                for k, stk in enumerate(tx['wit']):
+                    parts.append(_long_varint(len(stk), width) if (site == 'witcount0' and k == 0) else W.varint(len(stk)))
+                    for j, item in enumerate(stk):
+                        parts.append((_long_varint(len(item), width) + item) if (site == 'wititem0' and k == 0 and j == 0) else W.varstr(item))
+            elif site.startswith('wit'):
+                continue
+            parts.append(W.u32(tx['locktime']))
+            out.append(('%s:%d' % (site, width), b''.join(parts)))
+    if not w:
+        stripped = W.enc_tx(tx, False)
+        out.append(('marker-empty-stacks:0', stripped[:4] + b'\x00\x01' + stripped[4:-4] + b'\x00' * len(tx['vin']) + stripped[-4:]))
+    return out
+
+
 def check_block(case):
     h = _hdr(case['header'])
     E80 = W.enc_header(h)
@@ -164,7 +216,16 @@ def check_block(case):
         raise Violation('blk/get_header', 'get_header() is not the 80-byte header')
     if hash(blk) != hash(raw) or not (blk == CBlock.deserialize(raw)):
         raise Violation('blk/pyhash', 'hash()/== of a block do not reflect its serialisation')
-    evals = 3
+    # equality is equality of the SERIALISED value: a block is never equal to its bare header, nor to a block that carries the
+    # same header with other transactions - also after the identifiers (which cover the header only) have been read and cached
+    b_empty = CBlock.deserialize(E80 + b'\x00')
+    for other, what in ((blk.get_header(), 'its own header'), (hdr, 'an equal header object')) + (((b_empty, 'the same header without transactions'),) if txs else ()):
+        blk.GetHash(); other.GetHash(); hash(blk); hash(other)
+        if (blk == other) is not False or (other == blk) is not False or (blk != other) is not True or (other != blk) is not True:
+            raise Violation('blk/eq-header', 'a block with %d transactions compares equal to %s' % (len(txs), what))
+    if not (hdr == blk.get_header()) or hash(hdr) != hash(blk.get_header()) or (hdr != blk.get_header()):
+        raise Violation('blk/get_header-eq', 'get_header() does not compare equal to an equal header')
+    evals = 5
     if txs:
         from ..ref.merkle import merkle_root
         root = merkle_root([W.txid(t) for t in txs])
